@@ -147,3 +147,48 @@ package bitmap
 //@     invariant from <= i && i <= to
 //@     invariant forall q int32 :: 0 <= q && q < i-from ==> bitAt(r, q) == bitAt(words, from+q)
 //@     invariant forall q int32 :: i-from <= q && int(q) < 64*len(r) ==> bitAt(r, q) == 0
+
+// ---- C12: Of / ToArray ----
+
+//@ func ToArray returns (r)
+//@   requires len(words) < 1<<25
+//@   ensures int32(len(r)) == R(words, len(words))
+//@   ensures forall k int :: 0 <= k && k < len(r) ==> 0 <= r[k] && int(r[k]) < 64*len(words) && bitAt(words, r[k]) == 1 && rank(words, r[k]) == int32(k)
+//@   ensures forall p int32 :: 0 <= p && int(p) < 64*len(words) && bitAt(words, p) == 1 ==> r[int(rank(words, p))] == p
+//@   ensures fresh(r)
+//@   assigns nothing
+//@   use pc_zero(words[0])
+//@   loop 1
+//@     invariant 0 <= i && i <= l && int(l) == 64*len(words) && fresh(r)
+//@     invariant int32(len(r)) == rank(words, i) && len(r) <= int(i)
+//@     invariant forall k int :: 0 <= k && k < len(r) ==> 0 <= r[k] && r[k] < i && bitAt(words, r[k]) == 1 && rank(words, r[k]) == int32(k)
+//@     invariant forall p int32 :: 0 <= p && p < i && bitAt(words, p) == 1 ==> 0 <= rank(words, p) && int(rank(words, p)) < len(r) && r[int(rank(words, p))] == p
+//@     use rank_step(words, i)
+//@   useret pc_zero(words[len(words)])
+
+//@ func Of returns (words)
+//@   requires ascending(bitPositions)
+//@   requires forall k int :: 0 <= k && k < len(bitPositions) ==> 0 <= bitPositions[k] && bitPositions[k] < 0x7fffffc0
+//@   requires len(opts) > 0 ==> opts[0] < 0x7fffffc0
+//@   ensures len(words) == (int(ofSize(bitPositions, len(opts) > 0, opts[0])) + 63) >> 6
+//@   ensures forall p int32 :: 0 <= p && int(p) < 64*len(words) ==> (bitAt(words, p) == 1 <==> memb(bitPositions, len(bitPositions), p))
+//@   ensures fresh(words)
+//@   assigns nothing
+//@   loop 1
+//@     invariant -1 <= rangeindex && rangeindex < len(bitPositions)
+//@     invariant forall p int32 :: 0 <= p && int(p) < 64*len(words) ==> (bitAt(words, p) == 1 <==> memb(bitPositions, rangeindex+1, p))
+
+// ---- C14: Join ----
+
+//@ func Join returns (r)
+//@   requires isWidth(int(size)) && len(subs) * int(size) < 1<<31
+//@   ensures len(r) == (len(subs)*int(size) + 63) >> 6
+//@   ensures forall k int :: 0 <= k && k < len(subs) ==> getw(r, k, int(size)) == subs[k] & lowmask(int(size))
+//@   ensures forall k int :: len(subs) <= k && k < 1<<32 && (k+1)*int(size) <= 64*len(r) ==> getw(r, k, int(size)) == 0
+//@   ensures fresh(r)
+//@   assigns nothing
+//@   split size 1 64
+//@   loop 1
+//@     invariant -1 <= rangeindex && rangeindex < len(subs)
+//@     invariant forall k int :: 0 <= k && k <= rangeindex ==> getw(r, k, int(size)) == subs[k] & lowmask(int(size))
+//@     invariant forall k int :: rangeindex < k && k < 1<<32 && (k+1)*int(size) <= 64*len(r) ==> getw(r, k, int(size)) == 0
